@@ -39,6 +39,7 @@ type Config struct {
 	QueryMean   float64            `json:"queryMean"`
 	EVM         bool               `json:"evm"`
 	AvoidKnown  bool               `json:"avoidKnown"` // do not generate the shapes of listed known findings
+	FreshHeavy  bool               `json:"freshHeavy,omitempty"`  // most transfers go to addresses never seen before (hundreds of accounts per world)
 	RewardCliff int                `json:"rewardCliff,omitempty"` // K > 0: one whale validator and a reward rate at which its owner's claim passes 2^255 after about K blocks (the world ends before anything can reach 2^256)
 }
 
@@ -99,6 +100,7 @@ type Side struct {
 	Kind    string  `json:"kind"` // check | query
 	Intent  *Intent `json:"intent,omitempty"`
 	BlockTx int     `json:"blockTx,omitempty"` // check: -1 or index of a tx of the current block (+1)
+	Twin    bool    `json:"twin,omitempty"`    // check: the genuine (unaltered) version of that block tx, if the block carries an altered one
 	Path    string  `json:"path,omitempty"`
 	QData   string  `json:"qdata,omitempty"` // a<i> | c<i> | p<i> | s... | hex
 	QHeight int64   `json:"qh,omitempty"`    // 0 latest, >0 absolute, <0 relative to latest
